@@ -85,7 +85,7 @@ class PartitionedDistinguisherMixin(_PartitionnedDistinguisherBaseMixin):
     def _accumulate_core_1(traces, data, self_sum, self_sum_square, self_counters, self_precision):
         for sample_idx in _nb.prange(traces.shape[1]):
             for trace_idx in range(traces.shape[0]):
-                x = traces[trace_idx, sample_idx]
+                x = self_precision(traces[trace_idx, sample_idx])
                 xx = x * x
                 for data_idx in range(data.shape[1]):
                     data_value = data[trace_idx, data_idx]
@@ -113,15 +113,16 @@ class PartitionedDistinguisherMixin(_PartitionnedDistinguisherBaseMixin):
 
         Otherwise, the fastest method is selected empirically.
         """
+        precision = _np.dtype(self.precision).type
         if len(self.partitions) > 9:
-            self._accumulate_core_1(traces, data, self.sum, self.sum_square, self.counters, self.precision)
+            self._accumulate_core_1(traces, data, self.sum, self.sum_square, self.counters, precision)
         else:
             if not hasattr(self, '_timings'):
                 self._timings = [-2, -1]
             function_idx = _np.argmin(self._timings)
             function = [self._accumulate_core_1, self._accumulate_core_2][function_idx]
             t0 = _time.process_time()
-            function(traces, data, self.sum, self.sum_square, self.counters, self.precision)
+            function(traces, data, self.sum, self.sum_square, self.counters, precision)
             self._timings[function_idx] = _time.process_time() - t0
 
     def _compute(self):
